@@ -38,7 +38,8 @@ func generateContCfgForExclusiveENI(cfg *types.SetupConfig, link netlink.Link) *
 		addrs = utils.NewIPNetToMaxMask(cfg.ContainerIPNet)
 	}
 
-	if cfg.MultiNetwork {
+	// the oif rule is an ipv4 rule, a pod without ipv4 gets none
+	if cfg.MultiNetwork && cfg.ContainerIPNet.IPv4 != nil {
 		table := utils.GetRouteTableID(link.Attrs().Index)
 
 		ruleIf := netlink.NewRule()
